@@ -486,3 +486,96 @@ def check_no_parameter_state_in_constructors(ctx, rule: str) -> None:
                "(dataset scale, megacomplex parameter, `.parameters`) in the constructor stays at the initial parameters for the whole fit",
                [f"reads `{norm(a)}` (line {a.lineno})" for a in bad[:4]] or None, construct=short(stmt_of(bad[0]), 110) if bad else f"{ci.name}.__init__")
     ctx.sites(rule, "provider constructors examined", n, 4)
+
+
+def _callee_params(repo: Repo, fi: FunctionInfo, c: ast.Call) -> tuple[str, list[str]] | None:
+    """(display name, parameter names) of the callee of ``c`` when it can be resolved: functions, methods on
+    self / typed receivers by name in the own class hierarchy, classes (constructor or dataclass/attrs fields)."""
+    f = c.func
+    if isinstance(f, ast.Attribute) and isinstance(f.value, ast.Name) and f.value.id in ("self", "cls") and fi.cls:
+        ci = repo.classes.get(f"{fi.module.name}.{fi.cls}") if not hasattr(fi.cls, "qualname") else fi.cls
+        cq = getattr(ci, "qualname", None) or f"{fi.module.name}.{fi.cls}"
+        m = repo.find_method(cq, f.attr)
+        if m is not None:
+            return m.short, [p for p in m.params() if p not in ("self", "cls")]
+        return None
+    q = resolved(repo, fi, f)
+    if q in repo.functions:
+        g = repo.functions[q]
+        return g.short, [p for p in g.params() if p not in ("self", "cls")]
+    if q in repo.classes:
+        ci = repo.classes[q]
+        init = repo.find_method(q, "__init__")
+        if init is not None:
+            return ci.name, [p for p in init.params() if p != "self"]
+        fields = []
+        for k in repo.mro(q):
+            kc = repo.classes.get(k)
+            if kc is not None:
+                fields += [a for a in kc.annotations if a not in fields]
+        return ci.name, fields
+    return None
+
+
+def check_option_forwarding(ctx, rule: str, names: tuple[str, ...], minimum: int, prefixes: tuple[str, ...] = ("glotaran/",)) -> None:
+    """A function that takes option ``p`` and calls a function that also takes ``p`` hands its own, unmodified ``p`` on."""
+    repo = ctx.repo
+    n = 0
+    for fi in repo.functions.values():
+        if not fi.rel.startswith(prefixes):
+            continue
+        own = [p for p in fi.params() if p in names]
+        if not own:
+            continue
+        fl = None
+        for c in calls(fi, nested=False):
+            cp = _callee_params(repo, fi, c)
+            if cp is None:
+                continue
+            cname, cparams = cp
+            for p in own:
+                if p not in cparams:
+                    continue
+                n += 1
+                if fl is None:
+                    fl = flow(fi, repo)
+                    ctx.touch(fi)
+                v = next((k.value for k in c.keywords if k.arg == p), None)
+                if v is None and any(k.arg is None for k in c.keywords):
+                    continue  # **kwargs forwarding
+                if v is None:
+                    idx = cparams.index(p)
+                    v = c.args[idx] if idx < len(c.args) and not any(isinstance(a, ast.Starred) for a in c.args) else None
+                ok = isinstance(v, ast.Name) and v.id == p and all(d.kind == "param" for d in fl.reaching(p, stmt_of(c)))
+                ctx.ob(rule, f"{fi.short}->{cname}/forwards:{p}", ok, fi, c,
+                       f"`{p}` is accepted by both {fi.short} and {cname}: the caller's value must be handed on unchanged, otherwise the "
+                       "option is silently replaced by the callee's default", construct=short(c, 110))
+    ctx.sites(rule, f"call sites forwarding {'/'.join(names)}", n, minimum)
+
+
+def check_linkable_requires_one_global_dimension(ctx, rule: str) -> None:
+    fi = ctx.fn("glotaran/model/dataset_group.py", "DatasetGroup.is_linkable")
+    fl = flow(fi, ctx.repo)
+    data_p = fi.params()[2]
+    rets = [r for r in nodes(fi, ast.Return) if not isinstance(r.value, ast.Constant)]
+    ok = False
+    trace = []
+    for r in rets:
+        v = fl.inline(r.value, r)
+        if isinstance(v, ast.Compare) and len(v.ops) == 1 and isinstance(v.ops[0], ast.Eq) and isinstance(v.comparators[0], ast.Constant) \
+                and v.comparators[0].value == 1 and isinstance(v.left, ast.Call) and norm(v.left.func) == "len" and len(v.left.args) == 1:
+            arg = v.left.args[0]
+            if isinstance(arg, ast.Name):
+                # a set accumulated over every dataset
+                inits = [d for d in fl.defs_of(arg.id) if d.kind == "assign" and norm(d.value) in ("set()", "{*()}")]
+                accs = [s for t, s in stores(fi) if isinstance(s, ast.AugAssign) and isinstance(s.op, ast.BitOr) and norm(t) == arg.id]
+                accs += [stmt_of(c) for c in method_calls(fi, "update") + method_calls(fi, "add") if norm(c.func.value) == arg.id]
+                loops = [lp for lp in nodes(fi, ast.For) if norm(lp.iter) in (f"{data_p}.values()", f"{data_p}.items()", data_p)]
+                ok = bool(inits) and bool(accs) and any(is_inside(a, lp) for a in accs for lp in loops)
+                trace.append(f"set `{arg.id}`: {len(inits)} initialisation(s), {len(accs)} accumulation(s) inside {len(loops)} loop(s) over the data")
+            elif isinstance(arg, ast.SetComp) and len(arg.generators) >= 2 and data_p in norm(arg.generators[0].iter):
+                ok = True
+    ctx.ob(rule, "DatasetGroup.is_linkable/one-common-global-dimension", ok, fi, rets[-1] if rets else fi.node,
+           "datasets are linked automatically only when the union of their non-model dimensions over *all* datasets is a single name; "
+           "a per-dataset test links (time, spectral) with (time, pixel) on coinciding numbers", trace,
+           construct=short(rets[-1], 100) if rets else "def is_linkable")
